@@ -390,10 +390,11 @@ def rules(repo, tier):
     from ..optional import rule_optional
     from ..mode import mode_rules
     from ..callsig import rule_callsig
+    from ..docsig import rule_docsig
     from ..axisdefault import rule_axisdefault
     return list(_rules_core(repo, tier)) + [rule_memo(repo, 'C03.MEMO', 'history independence: nothing computed from the contents of a tensor argument is kept '
                                                       'under the identity, address or version of that tensor, in module-level storage, or published from a generator '
                                                       'before it is complete - a later call with the same object and other contents must not be answered from it',
                                                       ['pypose.lietensor.lietensor', 'pypose.lietensor.operation', 'pypose.lietensor.basics', 'pypose.lietensor.utils'], floor=3),
-            rule_optional(repo, 'C03.OPT', ['pypose.lietensor.lietensor', 'pypose.lietensor.operation', 'pypose.lietensor.basics', 'pypose.lietensor.utils'])] + mode_rules(repo, 'C03', ['pypose.lietensor.lietensor', 'pypose.lietensor.operation', 'pypose.lietensor.basics', 'pypose.lietensor.utils']) + [rule_callsig(repo, 'C03.SIG', ['pypose.lietensor.lietensor', 'pypose.lietensor.operation', 'pypose.lietensor.basics', 'pypose.lietensor.utils'])] + [
+            rule_optional(repo, 'C03.OPT', ['pypose.lietensor.lietensor', 'pypose.lietensor.operation', 'pypose.lietensor.basics', 'pypose.lietensor.utils'])] + mode_rules(repo, 'C03', ['pypose.lietensor.lietensor', 'pypose.lietensor.operation', 'pypose.lietensor.basics', 'pypose.lietensor.utils']) + [rule_callsig(repo, 'C03.SIG', ['pypose.lietensor.lietensor', 'pypose.lietensor.operation', 'pypose.lietensor.basics', 'pypose.lietensor.utils']), rule_docsig(repo, 'C03.DOC', ['pypose.lietensor.lietensor', 'pypose.lietensor.operation', 'pypose.lietensor.basics', 'pypose.lietensor.utils'])] + [
             rule_axisdefault(repo, 'C03.AXDEF', ['pypose.lietensor.lietensor', 'pypose.lietensor.operation', 'pypose.lietensor.basics', 'pypose.lietensor.utils', 'pypose.lietensor.convert', 'pypose.basics.ops'])]
